@@ -99,7 +99,7 @@ def space_nonsyntactic_nullable_field(d):
         for fd, kind in d[2]:
             if kind != "none" and nullable(fd) and not syntactic(fd):
                 return True
-    if k in ("dcgen", "dcgeninh") and nullable(d[1]):
+    if k in ("dcgen", "dcgeninh", "dcselfg") and nullable(d[1]):
         return True
     if k in ("dcinh", "dcself", "dcselft", "dcfwd", "dcmut") and nullable(d[1]) and not syntactic(d[1]):
         return True
